@@ -9,7 +9,8 @@ EXPLANATION = (
     "counter stays raised, no later commit reaches zero, the write-ahead log is never purged and drop/reopen undoes "
     "all later work. Plus: transaction_mut rolls back on the closure's Err edge.")
 DECIDED = ["R32 PAIR(error): begin/commit pairing on every error exit (one key per bracketing function)",
-           "R32b transaction_mut calls rollback when the closure fails"]
+           "R32b transaction_mut calls rollback when the closure fails",
+           "R04c the compaction pass is one storage transaction ending in truncate + clear_free (shared with C04)"]
 UNDECIDED = ["state of in-memory tables vs file after the fault (a correct abort must also undo in-memory structures)"]
 
 
@@ -34,4 +35,7 @@ def run(ctx):
         ctx.ob("R32b", "transaction_mut:rollback-on-Err", ok,
                "closure Err => TransactionMut::rollback on every path; Ok => commit" if ok else
                "transaction_mut does not reach rollback on every path after the closure failed", b.where)
+    # a write failure during the close-time compaction must undo the whole pass (R04c, shared with C04)
+    from rules import C04
+    C04.optimize_rule(ctx)
     return 0
